@@ -15,8 +15,8 @@ import (
 // (io.Reader / io.ReaderAt / io.Seeker compliance) and a plain Go reference reader.  Nothing here uses
 // the Coq model.
 
-// oBackend is one way to obtain a BinaryReader over data; claimed = the n handed to the constructor.
-type oBackend struct {
+// c19OBackend is one way to obtain a BinaryReader over data; claimed = the n handed to the constructor.
+type c19OBackend struct {
 	name    string
 	kind    int
 	neg     bool   // hand n = -1 to the constructor
@@ -25,29 +25,29 @@ type oBackend struct {
 	seeks   bool // supports Seek/ReadAt at arbitrary offsets
 }
 
-var oBackends = []oBackend{
-	{name: "bytes", kind: bkBytes, seeks: true},
-	{name: "reader", kind: bkPlain},
-	{name: "reader", kind: bkPlain, variant: "onebyte"},
-	{name: "reader", kind: bkPlain, variant: "half"},
-	{name: "readseeker", kind: bkSeeker, seeks: true},
-	{name: "readseeker", kind: bkSeeker, neg: true, variant: "onebyte", seeks: true},
-	{name: "readerat", kind: bkReaderAt, seeks: true},
-	{name: "file", kind: bkFile, seeks: true},
-	{name: "mmap", kind: bkMmap, seeks: true},
-	{name: "readall", kind: bkPlain, neg: true, variant: "half", seeks: true},
-	{name: "hasbytes", kind: bkHasBytes, seeks: true},
-	{name: "clone-of-bytes", kind: bkBytes, clone: true, seeks: true},
-	{name: "clone-of-readseeker", kind: bkSeeker, clone: true, seeks: true},
+var c19OBackends = []c19OBackend{
+	{name: "bytes", kind: c19BkBytes, seeks: true},
+	{name: "reader", kind: c19BkPlain},
+	{name: "reader", kind: c19BkPlain, variant: "onebyte"},
+	{name: "reader", kind: c19BkPlain, variant: "half"},
+	{name: "readseeker", kind: c19BkSeeker, seeks: true},
+	{name: "readseeker", kind: c19BkSeeker, neg: true, variant: "onebyte", seeks: true},
+	{name: "readerat", kind: c19BkReaderAt, seeks: true},
+	{name: "file", kind: c19BkFile, seeks: true},
+	{name: "mmap", kind: c19BkMmap, seeks: true},
+	{name: "readall", kind: c19BkPlain, neg: true, variant: "half", seeks: true},
+	{name: "hasbytes", kind: c19BkHasBytes, seeks: true},
+	{name: "clone-of-bytes", kind: c19BkBytes, clone: true, seeks: true},
+	{name: "clone-of-readseeker", kind: c19BkSeeker, clone: true, seeks: true},
 	// io-contract corner cases of the underlying stream
-	{name: "reader", kind: bkPlain, variant: "dataerr"},
-	{name: "readseeker", kind: bkSeeker, variant: "dataerr", seeks: true},
-	{name: "readerat", kind: bkReaderAt, variant: "dataerr", seeks: true},
-	{name: "reader", kind: bkPlain, variant: "zeroreads"},
-	{name: "readseeker", kind: bkSeeker, variant: "zeroreads", seeks: true},
+	{name: "reader", kind: c19BkPlain, variant: "dataerr"},
+	{name: "readseeker", kind: c19BkSeeker, variant: "dataerr", seeks: true},
+	{name: "readerat", kind: c19BkReaderAt, variant: "dataerr", seeks: true},
+	{name: "reader", kind: c19BkPlain, variant: "zeroreads"},
+	{name: "readseeker", kind: c19BkSeeker, variant: "zeroreads", seeks: true},
 }
 
-func (b oBackend) label() string {
+func (b c19OBackend) label() string {
 	if b.variant != "" {
 		return b.name + "+" + b.variant
 	}
@@ -55,7 +55,7 @@ func (b oBackend) label() string {
 }
 
 // open builds the reader over data with claimed total size n (ignored by bytes/mmap/readall/hasbytes).
-func (b oBackend) open(data []byte, n int64) (*parse.BinaryReader, func()) {
+func (b c19OBackend) open(data []byte, n int64) (*parse.BinaryReader, func()) {
 	var sched []int
 	ewl := false
 	switch b.variant {
@@ -78,7 +78,7 @@ func (b oBackend) open(data []byte, n int64) (*parse.BinaryReader, func()) {
 	if b.neg {
 		n = -1
 	}
-	r, cleanup, err := openBackend(b.kind, n, data, sched, ewl, false)
+	r, cleanup, err := c19OpenBackend(b.kind, n, data, sched, ewl, false)
 	if err != nil || r == nil {
 		panic(fmt.Sprintf("oracle: cannot open backend %s: %v", b.label(), err))
 	}
@@ -88,13 +88,13 @@ func (b oBackend) open(data []byte, n int64) (*parse.BinaryReader, func()) {
 	return r, cleanup
 }
 
-// refDecode decodes one value of the given type from b (len(b) = width) with encoding/binary.
-func refDecode(little bool, typ int, b []byte) tval {
+// c19RefDecode decodes one value of the given type from b (len(b) = width) with encoding/binary.
+func c19RefDecode(little bool, typ int, b []byte) c19Tval {
 	var bo binary.ByteOrder = binary.BigEndian
 	if little {
 		bo = binary.LittleEndian
 	}
-	v := tval{typ: typ}
+	v := c19Tval{typ: typ}
 	var u uint64
 	switch typ % 5 {
 	case 0:
@@ -123,17 +123,17 @@ func refDecode(little bool, typ int, b []byte) tval {
 	return v
 }
 
-// readTyped performs the read of type typ (10 = ReadBytes(n)) and returns the observation.
-func readTyped(r *parse.BinaryReader, typ int, n int) (obs []int64, p interface{}) {
-	code := roU8 + typ
+// c19ReadTyped performs the read of type typ (10 = ReadBytes(n)) and returns the observation.
+func c19ReadTyped(r *parse.BinaryReader, typ int, n int) (obs []int64, p interface{}) {
+	code := c19RoU8 + typ
 	if typ == 10 {
-		code = roReadBytes
+		code = c19RoReadBytes
 	} else if typ == 11 {
-		code = roReadByte
+		code = c19RoReadByte
 	}
 	p = catch(func() {
 		var oth *parse.BinaryReader
-		obs = doReadOp(&r, &oth, code, int64(n), 0)
+		obs = c19DoReadOp(&r, &oth, code, int64(n), 0)
 	})
 	if typ == 10 && len(obs) > 0 {
 		obs = obs[1:] // drop the nil flag
@@ -141,9 +141,9 @@ func readTyped(r *parse.BinaryReader, typ int, n int) (obs []int64, p interface{
 	return obs, p
 }
 
-var typNames = []string{"Uint8", "Uint16", "Uint24", "Uint32", "Uint64", "Int8", "Int16", "Int24", "Int32", "Int64", "Bytes", "Byte"}
+var c19TypNames = []string{"Uint8", "Uint16", "Uint24", "Uint32", "Uint64", "Int8", "Int16", "Int24", "Int32", "Int64", "Bytes", "Byte"}
 
-func allZero(v []int64) bool {
+func c19AllZero(v []int64) bool {
 	for _, x := range v {
 		if x != 0 {
 			return false
@@ -158,39 +158,49 @@ func c19Oracle(r *Rng, tier string, rep *Report) {
 		iters = 20000
 	}
 	for it := 0; it < iters; it++ {
-		oracleRoundTrip(r, rep, it)
+		c19OracleRoundTrip(r, rep, it)
 	}
 	for it := 0; it < iters; it++ {
-		oracleSeekReadAt(r, rep)
+		c19OracleSeekReadAt(r, rep)
+	}
+	// NewBinaryReaderReader hands a *BinaryReader back unchanged (position, error and byte order kept)
+	{
+		br := parse.NewBinaryReaderBytes([]byte{1, 2, 3, 4})
+		br.ReadUint16()
+		got, err := parse.NewBinaryReaderReader(br, -1)
+		if err != nil || got != br || got.Pos() != 2 {
+			rep.Violate("passthrough", fmt.Sprintf("NewBinaryReaderReader(*BinaryReader) = %p, %v; want the same reader %p", got, err, br), map[string]interface{}{})
+		}
+		rep.Eval("passthrough", true, "passthrough")
 	}
 	nb := 3000
 	if tier == "thorough" {
 		nb = 300000
 	}
 	for it := 0; it < nb; it++ {
-		oracleBitmap(r, rep, it)
+		c19OracleBitmap(r, rep, it)
 	}
 }
 
-// oracleRoundTrip: typed writes are read back value for value on every backend, Pos/Len track the bytes
+// c19OracleRoundTrip: typed writes are read back value for value on every backend, Pos/Len track the bytes
 // consumed, Err stays nil until a read runs past the end, then zero values and io.EOF (sticky); the same
 // with the data truncated at every byte.
-func oracleRoundTrip(r *Rng, rep *Report, it int) {
+func c19OracleRoundTrip(r *Rng, rep *Report, it int) {
 	little := r.Bool()
 	w := parse.NewBinaryWriter(nil)
 	if little {
 		w.ByteOrder = binary.LittleEndian
 	}
 	nv := 1 + r.Intn(6)
-	vals := make([]tval, nv)
+	vals := make([]c19Tval, nv)
 	var ref []byte
 	for i := range vals {
-		vals[i] = randTval(r)
-		writeTval(w, vals[i])
-		ref = append(ref, refEncode(little, vals[i])...)
+		vals[i] = c19RandTval(r)
+		c19WriteTval(w, vals[i])
+		ref = append(ref, c19RefEncode(little, vals[i])...)
 	}
 	full := append([]byte{}, w.Bytes()...)
-	desc := fmt.Sprintf("little=%v values=%s", little, descVals(vals))
+	desc := fmt.Sprintf("little=%v values=%s", little, c19DescVals(vals))
 	if !bytes.Equal(full, ref) || w.Len() != int64(len(ref)) {
 		rep.Violate("writer-encoding/"+desc, fmt.Sprintf("BinaryWriter wrote %x, encoding/binary gives %x (%s)", full, ref, desc),
 			map[string]interface{}{"values": desc, "got": hx(full), "want": hx(ref)})
@@ -198,7 +208,7 @@ func oracleRoundTrip(r *Rng, rep *Report, it int) {
 	rep.Eval("write:"+desc, len(full) > 0, "write")
 	extraTyp := r.Intn(12)
 	// truncation points: the full data on every iteration, every shorter prefix on a rotating backend subset
-	for bi, b := range oBackends {
+	for bi, b := range c19OBackends {
 		cuts := []int{len(full)}
 		if (it+bi)%4 == 0 {
 			cuts = cuts[:0]
@@ -209,30 +219,30 @@ func oracleRoundTrip(r *Rng, rep *Report, it int) {
 		for _, t := range cuts {
 			data := append([]byte{}, full[:t]...)
 			claimed := int64(len(full))
-			if b.kind == bkPlain && t < len(full) && r.Bool() {
+			if b.kind == c19BkPlain && t < len(full) && r.Bool() {
 				claimed = int64(t)
 			}
-			checkReadBack(rep, b, little, vals, data, t == len(full), claimed, extraTyp, desc)
+			c19CheckReadBack(rep, b, little, vals, data, t == len(full), claimed, extraTyp, desc)
 		}
 	}
 }
 
-func descVals(vals []tval) string {
+func c19DescVals(vals []c19Tval) string {
 	s := ""
 	for _, v := range vals {
 		switch {
 		case v.typ == 10:
 			s += fmt.Sprintf("Bytes(%x) ", v.b)
 		case v.typ < 5:
-			s += fmt.Sprintf("%s(%d) ", typNames[v.typ], v.u)
+			s += fmt.Sprintf("%s(%d) ", c19TypNames[v.typ], v.u)
 		default:
-			s += fmt.Sprintf("%s(%d) ", typNames[v.typ], v.i)
+			s += fmt.Sprintf("%s(%d) ", c19TypNames[v.typ], v.i)
 		}
 	}
 	return s
 }
 
-func checkReadBack(rep *Report, b oBackend, little bool, vals []tval, data []byte, isFull bool, claimed int64, extraTyp int, desc string) {
+func c19CheckReadBack(rep *Report, b c19OBackend, little bool, vals []c19Tval, data []byte, isFull bool, claimed int64, extraTyp int, desc string) {
 	br, cleanup := b.open(data, claimed)
 	defer cleanup()
 	if little {
@@ -241,7 +251,7 @@ func checkReadBack(rep *Report, b oBackend, little bool, vals []tval, data []byt
 	// Len() + Pos() must be the size of the source: the data itself for the in-memory backends (and a
 	// seeker asked to measure itself), the size handed to the constructor otherwise
 	total := claimed
-	if b.neg || b.kind == bkBytes || b.kind == bkMmap || b.kind == bkHasBytes {
+	if b.neg || b.kind == c19BkBytes || b.kind == c19BkMmap || b.kind == c19BkHasBytes {
 		total = int64(len(data))
 	}
 	lab := b.label()
@@ -250,10 +260,10 @@ func checkReadBack(rep *Report, b oBackend, little bool, vals []tval, data []byt
 	}
 	pos := 0     // reference position
 	eof := false // reference: a read ran past the end
-	seq := append([]tval{}, vals...)
+	seq := append([]c19Tval{}, vals...)
 	// after the written values: two more reads, which must run past the end
 	for k := 0; k < 2; k++ {
-		e := tval{typ: (extraTyp + k*5) % 12}
+		e := c19Tval{typ: (extraTyp + k*5) % 12}
 		if e.typ == 10 {
 			e.b = make([]byte, 2)
 		}
@@ -261,8 +271,8 @@ func checkReadBack(rep *Report, b oBackend, little bool, vals []tval, data []byt
 	}
 	for i, v := range seq {
 		sz := v.size()
-		obs, p := readTyped(br, v.typ, sz)
-		opname := typNames[v.typ]
+		obs, p := c19ReadTyped(br, v.typ, sz)
+		opname := c19TypNames[v.typ]
 		fits := pos+sz <= len(data)
 		if p != nil {
 			key := fmt.Sprintf("read-panic/%s/%s", lab, opname)
@@ -277,23 +287,23 @@ func checkReadBack(rep *Report, b oBackend, little bool, vals []tval, data []byt
 		var want []int64
 		if fits {
 			if v.typ == 10 {
-				want = bytesObs(data[pos : pos+sz])
+				want = c19BytesObs(data[pos : pos+sz])
 			} else if v.typ == 11 {
 				want = []int64{int64(data[pos]), 0}
 			} else {
-				want = refDecode(little, v.typ, data[pos:pos+sz]).wantObs()
+				want = c19RefDecode(little, v.typ, data[pos:pos+sz]).wantObs()
 			}
 			pos += sz
 		} else {
 			// runs past the end: zero value (byte strings: what is left), io.EOF from now on
 			if v.typ == 10 {
 				if pos < len(data) {
-					want = bytesObs(data[pos:])
+					want = c19BytesObs(data[pos:])
 				}
 			} else if v.typ == 11 {
 				want = []int64{0, 1}
 			} else {
-				want = tval{typ: v.typ}.wantObs()
+				want = c19Tval{typ: v.typ}.wantObs()
 			}
 			if pos < len(data) {
 				pos = len(data)
@@ -302,7 +312,7 @@ func checkReadBack(rep *Report, b oBackend, little bool, vals []tval, data []byt
 		}
 		err := br.Err()
 		// deviations of the underlying stream's corner cases, reported under one stable key each
-		if b.variant == "zeroreads" && binErrKind(err) == 4 {
+		if b.variant == "zeroreads" && c19BinErrKind(err) == 4 {
 			rep.Violate("zero-length-read/"+b.name, fmt.Sprintf("%s: the underlying reader returned (0, nil) once; Read%s then fails with %v", lab, opname, err), replay("zero-length read"))
 			return
 		}
@@ -342,9 +352,9 @@ func checkReadBack(rep *Report, b oBackend, little bool, vals []tval, data []byt
 	rep.Eval(fmt.Sprintf("rt:%s:%d:%s", lab, len(data), desc), len(data) > 0, "roundtrip/"+lab)
 }
 
-// oracleSeekReadAt: Seek agrees with bytes.Reader for every whence and every target in [0, Len] and rejects
+// c19OracleSeekReadAt: Seek agrees with bytes.Reader for every whence and every target in [0, Len] and rejects
 // the others without moving; Read/ReadAt/Seek pass testing/iotest.TestReader; ReadAt agrees with bytes.Reader.
-func oracleSeekReadAt(r *Rng, rep *Report) {
+func c19OracleSeekReadAt(r *Rng, rep *Report) {
 	data := make([]byte, r.Intn(20))
 	for i := range data {
 		data[i] = byte(r.U64())
@@ -364,7 +374,7 @@ func oracleSeekReadAt(r *Rng, rep *Report) {
 			seeks[i].off = []int64{1 << 62, -(1 << 62), 9223372036854775807, -9223372036854775808}[r.Intn(4)]
 		}
 	}
-	for _, b := range oBackends {
+	for _, b := range c19OBackends {
 		if b.variant == "dataerr" || b.variant == "zeroreads" {
 			continue
 		}
@@ -427,7 +437,7 @@ func oracleSeekReadAt(r *Rng, rep *Report) {
 				p0 := br.Pos()
 				n2, e2 := br.ReadAt(b2, off)
 				okErr := e1 == e2 || (n == 0 && (e2 == nil || e2 == io.EOF)) || (n2 == n && e1 == nil && e2 == io.EOF)
-				if b.kind == bkReaderAt && L == 0 && e2 != nil {
+				if b.kind == c19BkReaderAt && L == 0 && e2 != nil {
 					// NewBinaryReaderReader(readerAt, 0) picks the sequential backend ("0 < n"): ReadAt past the
 					// end of an empty source reports "does not implement io.Seeker or io.ReaderAt" rather than
 					// io.EOF; io.ReaderAt only asks for a non-nil error
@@ -461,15 +471,15 @@ func oracleSeekReadAt(r *Rng, rep *Report) {
 	}
 }
 
-// oracleBitmap: bits written with BitmapWriter come back in order; BitmapReader yields all 8*len(buf) bits
+// c19OracleBitmap: bits written with BitmapWriter come back in order; BitmapReader yields all 8*len(buf) bits
 // of any buffer (most significant bit first) and only then reports EOF.
-func oracleBitmap(r *Rng, rep *Report, it int) {
+func c19OracleBitmap(r *Rng, rep *Report, it int) {
 	if it%2 == 0 {
 		bits := make([]bool, r.Intn(70))
 		s := ""
 		for i := range bits {
 			bits[i] = r.Bool()
-			s += string('0' + byte(b2i(bits[i])))
+			s += string('0' + byte(c19B2i(bits[i])))
 		}
 		var got []bool
 		p := catch(func() {
